@@ -94,99 +94,62 @@ Proof. vm_compute. repeat split. Qed.
 (* 3. coherence of the two string -> number routines                   *)
 (* ================================================================== *)
 
-(* FULL STATEMENT (property text: "the number a numeric-looking input string stands for is the
-   same in comparisons, truth tests and arithmetic"): whenever parseFloat (comparisons, truth
-   tests) accepts s as the number x, parseFloatPrefix (arithmetic) reads the same x. *)
-Definition C05_coherence_full_statement : Prop :=
-  forall s x, parse_float s = PFOk x -> parse_float_prefix s = Ok x.
-
-(* FALSE on the pinned tree (F-C05-1): NBSP "12" is 12 for parseFloat (strings.TrimSpace trims
-   Unicode blanks) and 0 for parseFloatPrefix (skips ASCII blanks only). *)
-Theorem C05_coherence_refuted : ~ C05_coherence_full_statement.
-Proof.
-  intro H. specialize (H [194; 160; 49; 50] (FFin 6755399441055744 (-49))).
-  assert (E : parse_float [194; 160; 49; 50] = PFOk (FFin 6755399441055744 (-49))) by (vm_compute; reflexivity).
-  specialize (H E). vm_compute in H. discriminate.
-Qed.
-Print Assumptions C05_coherence_refuted.
-
-(* trailing position too: "12" NBSP; and U+3000 *)
-Theorem C05_coherence_refuted_more :
-  (exists x, parse_float [226; 128; 131; 49; 50] = PFOk x /\ parse_float_prefix [226; 128; 131; 49; 50] <> Ok x) /\
-  (exists x, parse_float [194; 160; 48; 120; 49; 65] = PFOk x /\ parse_float_prefix [194; 160; 48; 120; 49; 65] <> Ok x).
-Proof.
-  split; eexists; (split; [vm_compute; reflexivity|vm_compute; discriminate]).
-Qed.
-
-(* PARTIAL: holds whenever Unicode trimming and ASCII trimming of s coincide, i.e. for every
-   string without a non-ASCII Unicode blank at an edge of its ASCII-trimmed text.  All
-   strings, all values (decimal, hex, inf, nan; rounding included, since both routines hand
-   the same text to strconv). *)
-Theorem C05_coherence_partial : forall s x,
-  trim_space s = ascii_trim s -> parse_float s = PFOk x -> parse_float_prefix s = Ok x.
-Proof. exact coherence_partial. Qed.
-Print Assumptions C05_coherence_partial.
+(* Property text: "the number a numeric-looking input string stands for is the same in
+   comparisons, truth tests and arithmetic": whenever parseFloat (comparisons, truth tests)
+   accepts s as the number x, parseFloatPrefix (arithmetic) reads the same x.  All strings, all
+   values (decimal, hex, inf, nan, out-of-range; rounding included, since both routines hand the
+   same text to strconv).  This was C05_coherence_full_statement, refuted on the pinned tree by
+   NBSP "12" (F-C05-1, parseFloat trimmed Unicode blanks); since fix 5c04c54 both routines use
+   the one asciiSpace table and the statement holds without guard. *)
+Theorem C05_coherence : forall s x,
+  parse_float s = PFOk x -> parse_float_prefix s = Ok x.
+Proof. exact coherence. Qed.
+Print Assumptions C05_coherence.
 
 Example C05_ex_coherence_hyp :
-  (* " 0x1A \n": hypotheses hold, both read 26 *)
-  trim_space [32;48;120;49;65;32;10] = ascii_trim [32;48;120;49;65;32;10] /\
+  (* " 0x1A \n": both read 26; "1e400": both read +inf; NBSP "12", "12" U+3000: a string for
+     parseFloat (and 0 resp. 12 as a prefix), no longer a number for one routine only *)
   parse_float [32;48;120;49;65;32;10] = PFOk (FFin 7318349394477056 (-48)) /\
-  parse_float_prefix [32;48;120;49;65;32;10] = Ok (FFin 7318349394477056 (-48)).
-Proof. vm_compute. repeat split. Qed.
-
-(* FULL STATEMENT (property text: input-derived text "that looks entirely like a number"
-   compares numerically): a text in the AWK numeric grammar is accepted by parseFloat. *)
-Definition C05_numeric_text_accepted_full_statement : Prop :=
-  forall s, awk_numeral (ascii_trim s) -> exists x, parse_float s = PFOk x.
-
-(* FALSE on the pinned tree (F-C05-2): "1e400" is in the grammar; strconv returns ErrRange, so
-   isTrueStr/boolean treat it as a string, while parseFloatPrefix (arithmetic) reads +inf. *)
-Theorem C05_numeric_text_accepted_refuted : ~ C05_numeric_text_accepted_full_statement.
-Proof.
-  intro H. destruct (H [49; 101; 52; 48; 48]) as [x Hx].
-  - left. exists [], [49], [101; 52; 48; 48]. split; [reflexivity|]. split; [left; reflexivity|]. split.
-    + exists [49], [], []. split; [reflexivity|]. split; [reflexivity|]. split; [reflexivity|].
-      split; [right; split; reflexivity|left; discriminate].
-    + right. exists 101, [], [52; 48; 48]. split; [reflexivity|]. split; [left; reflexivity|].
-      split; [left; reflexivity|]. split; [discriminate|reflexivity].
-  - vm_compute in Hx. discriminate.
-Qed.
-Print Assumptions C05_numeric_text_accepted_refuted.
-
-(* PARTIAL: a grammatical input text (ASCII blanks around it) is a number for parseFloat or fails
-   with ErrRange - it is never a syntax error; so the range overflow is the only way a
-   numeric-looking text ends up compared as a string *)
-Theorem C05_numeric_text_accepted_partial : forall s,
-  trim_space s = ascii_trim s -> awk_numeral (ascii_trim s) ->
-  (exists x, parse_float s = PFOk x) \/ (exists v, parse_float s = PFErrRange v).
-Proof. exact numeric_text_accepted_partial. Qed.
-Print Assumptions C05_numeric_text_accepted_partial.
-
-(* FULL STATEMENT of the converse ("compares numerically ONLY IF it looks like a number"): what
-   parseFloat accepts is, after removing ASCII blanks, in the grammar or [sign] inf/infinity/nan *)
-Definition C05_accepted_is_numeric_full_statement : Prop :=
-  forall s x, parse_float s = PFOk x -> awk_numeral (ascii_trim s) \/ awk_special (ascii_trim s).
-
-(* FALSE on the pinned tree (F-C05-1 again): NBSP "12" *)
-Theorem C05_accepted_is_numeric_refuted : ~ C05_accepted_is_numeric_full_statement.
-Proof. intro H. destruct nbsp12_accepted_not_numeric as [s [x [Hp Hn]]]. exact (Hn (H s x Hp)). Qed.
-Print Assumptions C05_accepted_is_numeric_refuted.
-
-(* PARTIAL: true for every string whose Unicode and ASCII trimming coincide *)
-Theorem C05_accepted_is_numeric_partial : forall s x,
-  trim_space s = ascii_trim s -> parse_float s = PFOk x ->
-  awk_numeral (ascii_trim s) \/ awk_special (ascii_trim s).
-Proof. exact accepted_is_numeric. Qed.
-Print Assumptions C05_accepted_is_numeric_partial.
-
-Example C05_ex_overflow_incoherent :
-  (* "1e400": a string for comparisons (range error), +inf for arithmetic; "-0x1p1024" likewise *)
-  parse_float [49;101;52;48;48] = PFErrRange (FInf false) /\
+  parse_float_prefix [32;48;120;49;65;32;10] = Ok (FFin 7318349394477056 (-48)) /\
+  parse_float [49;101;52;48;48] = PFOk (FInf false) /\
   parse_float_prefix [49;101;52;48;48] = Ok (FInf false) /\
-  is_true_str (VNumStr [49;101;52;48;48]) = (fzero, true) /\
-  parse_float [45;48;120;49;112;49;48;50;52] = PFErrRange (FInf true) /\
-  parse_float_prefix [45;48;120;49;112;49;48;50;52] = Ok (FInf true).
+  parse_float [194;160;49;50] = PFErrSyntax /\
+  parse_float [49;50;227;128;128] = PFErrSyntax.
 Proof. vm_compute. repeat split. Qed.
+
+(* Property text: input-derived text "that looks entirely like a number" compares numerically: a
+   text in the AWK numeric grammar (ASCII blanks around it) is accepted by parseFloat.  This was
+   C05_numeric_text_accepted_full_statement, refuted on the pinned tree by "1e400" (F-C05-2,
+   strconv's ErrRange made it a string); since fix 2ec8f16 the range error is accepted (+-inf). *)
+Theorem C05_numeric_text_accepted : forall s,
+  awk_numeral (ascii_trim s) -> exists x, parse_float s = PFOk x.
+Proof. exact numeric_text_accepted. Qed.
+Print Assumptions C05_numeric_text_accepted.
+
+(* The converse ("compares numerically ONLY IF it looks like a number"): what parseFloat accepts
+   is, between ASCII blanks, in the grammar or [sign] inf/infinity/nan.  This was
+   C05_accepted_is_numeric_full_statement, refuted on the pinned tree by NBSP "12" (F-C05-1). *)
+Theorem C05_accepted_is_numeric : forall s x,
+  parse_float s = PFOk x -> awk_numeral (ascii_trim s) \/ awk_special (ascii_trim s).
+Proof. exact accepted_is_numeric. Qed.
+Print Assumptions C05_accepted_is_numeric.
+
+(* the former witnesses, on the repaired model *)
+Example C05_ex_former_witnesses :
+  (* "1e400" and "-0x1p1024": numbers (+-inf) for comparisons, truth tests and arithmetic alike *)
+  parse_float [49;101;52;48;48] = PFOk (FInf false) /\
+  parse_float_prefix [49;101;52;48;48] = Ok (FInf false) /\
+  is_true_str (VNumStr [49;101;52;48;48]) = (FInf false, false) /\
+  parse_float [45;48;120;49;112;49;48;50;52] = PFOk (FInf true) /\
+  parse_float_prefix [45;48;120;49;112;49;48;50;52] = Ok (FInf true) /\
+  site_Equals str_fmt6g (VNumStr [49;101;52;48;48]) (VNum (FInf false)) = Ok (VNum fone).
+Proof. vm_compute. repeat split. Qed.
+
+(* NBSP "12": not a number for parseFloat, 0 as a prefix, and not in the grammar *)
+Example C05_ex_nbsp_is_a_string :
+  parse_float [194; 160; 49; 50] = PFErrSyntax /\ parse_float_prefix [194; 160; 49; 50] = Ok (FFin 0 0) /\
+  ~ (awk_numeral (ascii_trim [194; 160; 49; 50]) \/ awk_special (ascii_trim [194; 160; 49; 50])).
+Proof. exact nbsp12_is_a_string. Qed.
 
 (* ================================================================== *)
 (* 4. comparison typing                                                *)
